@@ -485,14 +485,12 @@ def run_version(sc, sink, res=None):
                         want = [b"d%d" % p["partition"]] if bi == direct_at else [b"m%d-%d" % (bi, i) for i in range(sc["nmsgs"])]
                         if [m["value"] for m in deep] != want:
                             sink.mon("produce-payload got=%r want=%r" % ([m["value"] for m in deep], want), sc, ["c04-version-frame-payload"])
-                if ver < 2 and any(m != 0 for m in magics):
-                    sink.mon("format-1 message in Produce v%d" % ver, sc, ["c04-magic1-in-old-produce:" + sc["kind"]])
         except RC.CodecError as e:
             sink.mon("refcodec-rejects %s" % e, sc, ["c04-version-frame-nonconforming"])
         if fallback:
             sink.mon("mon-fallback %s %s" % (vr(ver), vr(magics)), sc, ["c04-fallback-not-zero:" + sc["kind"] + ":" + sc["api"]])
         else:
-            sink.mon("mon-version %s %s %s" % (vr(sc["table"]), vr(key), vr(ver)), sc, ["c04-version-not-advertised"])
+            sink.mon("mon-version %s %s %s %s" % (vr(sc["table"]), vr(key), vr(ver), vr(magics)), sc, ["c04-version-not-advertised-or-format:" + sc["kind"]])
     for frame, why in st["bad"]:
         sink.mon("broker-cannot-parse %s %s" % (why, frame.hex()[:200]), sc, ["c04-version-frame-nonconforming"])
     if len(sent) != len(outcomes):
@@ -584,7 +582,7 @@ def run_version(sc, sink, res=None):
             if after == 0:
                 sink.mon("mon-fallback %s %s" % (vr(ver), vr(magics)), sc, ["c04-fallback-not-zero:refetch:" + sc["api"]])
             else:
-                sink.mon("mon-version %s %s %s" % (vr(sv(after)), vr(key), vr(ver)), sc, ["c04-version-not-advertised"])
+                sink.mon("mon-version %s %s %s %s" % (vr(sv(after)), vr(key), vr(ver), vr(magics)), sc, ["c04-version-not-advertised-or-format:refetch"])
         if sc["api"] == "fetch" and isinstance(out, list):
             gotr = sorted((r.topic, r.partition, r.error, r.highwaterMark, [(m.offset, m.message.value) for m in W.drain(r.messages)[0]]) for r in out)
             want = sorted((topic, p, 0, 7, [(10 + p, b"v%d" % p)]) for p in range(nparts))
@@ -618,6 +616,9 @@ def evaluate(ctx, res, sink, refcheck=True):
                 res.disagreements.append({"component": comp, "scenario": clean(sc), "request": line[:2000], "impl": trunc(exp), "model": trunc(g)})
         else:
             res.count("monitor:" + (g[0] if g else "none"))
+            cmd = line.split(" ")
+            # the same verdicts by monitor (and API): what was judged, what was NOT judged (out-of-range) and why
+            res.count("verdict:%s:%s" % (":".join(cmd[:2]) if cmd[0] in ("mon-c04", "must-c04") else cmd[0], g[0] if g else "none"))
             if g and g[0] == "ok":
                 continue
             if g and g[0] == "out-of-range":
@@ -764,6 +765,17 @@ def run(ctx, res):
     else:
         run_scenarios(ctx, res, generate(ctx.rng, QUICK))
     shrink_all(ctx, res)
+    h = res.hist
+    tot = lambda pre, v: sum(n for k, n in h.items() if k.startswith("verdict:" + pre) and k.endswith(":" + v))  # noqa: E731
+    res.notes.append(
+        "monitor evaluations are NOT all judgements: grammar monitor on frames the real encoders emitted (mon-c04, mon-c04-set): ok=%d, out-of-range=%d "
+        "(not judged: the caller's arguments have no representation in the grammar although a frame was emitted - null in a non-nullable string, negative "
+        "attributes/version, an integer or length the field cannot carry, a format-1 message handed to Produce < 2; caller errors, listed per API in "
+        "op_histogram verdict:mon-c04:<api>:out-of-range); refusals of the real encoders (must-c04): out-of-range=%d means 'may be refused' (was refused "
+        "legitimately), a refusal of arguments that must be accepted would be a failure; version/format monitors on real produce/fetch frames "
+        "(mon-version, mon-fallback): ok=%d, out-of-range=%d (table outside the property's quantifier min<=0, max>=2: none is generated)."
+        % (tot("mon-c04", "ok"), tot("mon-c04", "out-of-range"), tot("must-c04", "out-of-range"),
+           tot("mon-version", "ok") + tot("mon-fallback", "ok"), tot("mon-version", "out-of-range")))
 
 
 def shrink_all(ctx, res):
